@@ -57,6 +57,7 @@ pub fn classes(s: &CaseStats) -> Vec<String> {
     add(s.huge_key, "key > 1 KiB");
     add(s.err_returns > 0, "error return checked");
     add(s.in_tx_scans > 0, "in-tx scan");
+    add(s.iter_handles > 0, "handles adopted from to_buckets()");
     add(s.read_txs > 0, "read tx");
     c
 }
